@@ -1,6 +1,6 @@
 (* C14 — proofs about the memory-operand path model (coq/gen/C14MemPathModel.v) over the generated tables. *)
 From Coq Require Import ZArith NArith List Bool Lia.
-From Verif Require Import EmitState.EmitStateModel EmitState.EmitStateProofs EmitState.LookupModel EmitState.LookupProofs.
+From Verif Require Import EmitState.EmitStateModel EmitState.EmitStateProofs EmitState.LookupModel EmitState.LookupProofs EmitState.EncPathModel.
 From VerifGen Require Import C14Tables C14TableProofs C14MemPathModel.
 Import ListNotations.
 Local Open Scope Z_scope.
@@ -29,11 +29,11 @@ Qed.
 
 (* the encoder path never reads a table out of bounds, for EVERY value of the operand fields the signature can carry
    (5-bit base/index types, 3-bit segment; ids, shift, offset arbitrary) — in both modes, validated or not *)
-Theorem mem_encode_never_stuck : forall x64 absloc cur m,
+Theorem modrm_encode_never_stuck : forall x64 absloc cur npp rexop m,
   0 <= m_btype m <= x86c_mem_base_type_max -> 0 <= m_itype m <= x86c_mem_index_type_max -> 0 <= m_seg m <= x86c_mem_segment_max ->
-  x86_add_mem_encode x64 absloc cur m <> MStuck.
+  x86_modrm_mem_encode x64 absloc cur npp rexop m <> MStuck.
 Proof.
-  intros x64 absloc cur m Hb Hi Hs. unfold x86_add_mem_encode.
+  intros x64 absloc cur npp rexop m Hb Hi Hs. unfold x86_modrm_mem_encode.
   destruct (mem_info_lookup (m_btype m) (m_itype m) Hb Hi) as [rmi E1]. rewrite E1. cbn [bind_l].
   destruct (segment_lookup (m_seg m) Hs) as [sp E2]. rewrite E2. cbn [bind_l].
   set (rex1 := Z.lor _ (if x64 then 0 else 128)).
@@ -55,6 +55,11 @@ Proof.
         | destruct (mod16_b_lookup (m_bid m)) as [v E]; rewrite E; cbn [bind_l]; apply A ] ].
 Qed.
 
+Theorem mem_encode_never_stuck : forall x64 absloc cur m,
+  0 <= m_btype m <= x86c_mem_base_type_max -> 0 <= m_itype m <= x86c_mem_index_type_max -> 0 <= m_seg m <= x86c_mem_segment_max ->
+  x86_add_mem_encode x64 absloc cur m <> MStuck.
+Proof. intros. unfold x86_add_mem_encode. apply modrm_encode_never_stuck; assumption. Qed.
+
 Theorem mem_path_never_stuck : forall x64 absloc cur add_id m,
   0 <= m_btype m <= x86c_mem_base_type_max -> 0 <= m_itype m <= x86c_mem_index_type_max -> 0 <= m_seg m <= x86c_mem_segment_max ->
   x86_add_mem x64 absloc cur add_id m <> MStuck.
@@ -71,7 +76,7 @@ Proof.
   destruct (x86_add_mem _ _ _ add_id m) as [n dr | e | |] eqn:R; inversion H; subst; cbn; [exact I |].
   unfold x86_add_mem in R.
   destruct (validate_add_mem _ add_id m =? 0) eqn:V.
-  - unfold x86_add_mem_encode, bind_l in R.
+  - unfold x86_add_mem_encode, x86_modrm_mem_encode, bind_l in R.
     repeat match type of R with
     | (match ?o with Some _ => _ | None => _ end) = _ => destruct o; [| discriminate R]
     | (if ?c then _ else _) = _ => destruct c
@@ -86,7 +91,7 @@ Lemma mem_relocs_01 : forall x64 absloc cur add_id m n dr, x86_add_mem x64 abslo
 Proof.
   intros x64 absloc cur add_id m n dr H. unfold x86_add_mem in H.
   destruct (validate_add_mem x64 add_id m =? 0); [| discriminate H].
-  unfold x86_add_mem_encode, bind_l in H.
+  unfold x86_add_mem_encode, x86_modrm_mem_encode, bind_l in H.
   repeat match type of H with
   | (match ?o with Some _ => _ | None => _ end) = _ => destruct o; [| discriminate H]
   | (if ?c then _ else _) = _ => destruct c
@@ -182,6 +187,26 @@ Proof.
   end; try discriminate H.
 Qed.
 
+Lemma high_vec_scan_some : forall T x64 avx evex ops x, high_vec_scan T x64 avx evex ops = Some x -> x = E_InvalidPhysId.
+Proof.
+  induction ops as [| o r IH]; intros x H; cbn [high_vec_scan] in H; [discriminate |].
+  destruct o; try discriminate H;
+    destruct (xlat_operand T x64 false avx _); try discriminate H; try (apply IH; exact H).
+  match type of H with (if ?c then _ else _) = _ => destruct c end; [inversion H; reflexivity | apply IH; exact H].
+Qed.
+
+(* the HEAD adapter only ever ADDS a refusal: what it lets through, C13's validator lets through *)
+Lemma validate_head_ok : forall T zq x64 inst ops, validate_head T zq x64 inst ops = E_Ok -> validate T zq x64 false inst ops = E_Ok.
+Proof.
+  intros T zq x64 inst ops H. unfold validate_head in H.
+  destruct (vt_count T <=? vi_id inst)%N; [exact H |].
+  destruct (nth (N.to_nat (vi_id inst)) (vt_inst T) (0, 0, 0, 0)%N) as [[[iflags avx] sidx] scnt].
+  destruct (negb (lock_stage (vi_options inst) iflags (first_is_mem ops) =? E_Ok)%N); [exact H |].
+  destruct (negb (rep_stage (vi_options inst) iflags =? E_Ok)%N); [exact H |].
+  destruct (high_vec_scan T x64 avx (test iflags IF_Evex) ops) as [x |] eqn:S; [| exact H].
+  apply high_vec_scan_some in S. subst x. discriminate H.
+Qed.
+
 Lemma validated_index_allowed : forall x64 inst_id v,
   0 <= m_itype (v_mem v) -> validate_vgather x64 inst_id v = 0 -> index_type_allowed (m_itype (v_mem v)).
 Proof.
@@ -193,7 +218,7 @@ Proof.
                   (Z.to_N (m_iid (v_mem v))) (if m_btype (v_mem v) =? 0 then sext 64 (m_off (v_mem v)) else sext 32 (m_off (v_mem v)))
                   (Z.to_N (m_seg (v_mem v))) 0%N false;
              OReg (Z.to_N (v_type v)) (Z.to_N (v_mask v))] = E_Ok).
-  { apply N2Z.inj. exact H. }
+  { apply validate_head_ok. apply N2Z.inj. exact H. }
   apply validate_ok_inv in V. destruct V as [_ [iflags [avx [sidx [scnt [st [rest [_ [XL _]]]]]]]]].
   cbn [xlat_all] in XL.
   destruct (xlat_operand x86_vtables x64 false avx (OReg _ _)) as [e0 | x0 c0]; [discriminate XL |].
@@ -339,6 +364,45 @@ Proof.
     + right. apply negb_false_iff in I. apply Z.eqb_eq in I. exact I.
 Qed.
 
+(* ---------------------------------------------------------------- a64 load / store pair *)
+Lemma a64_ldp_rows_in_range :
+  forallb (fun id => match a64_ldp_row_at id with PStuck => false | _ => true end) (upto (a64c_inst_id_count - 1)) = true.
+Proof. vm_compute. reflexivity. Qed.
+
+Theorem a64_ldp_never_stuck : forall inst_id m, 0 <= inst_id -> a64_ldp inst_id m <> MStuck.
+Proof.
+  intros id m H0. unfold a64_ldp, a64_ldp_row.
+  assert (R : 0 <= a64_norm_id id <= a64c_inst_id_count - 1).
+  { unfold a64_norm_id. destruct (a64c_inst_id_count <=? id) eqn:E; [vm_compute; split; discriminate |]. apply Z.leb_gt in E. lia. }
+  pose proof a64_ldp_rows_in_range as A. rewrite forallb_forall in A. specialize (A _ (in_upto _ _ R)).
+  destruct (a64_ldp_row_at (a64_norm_id id)); [| discriminate | discriminate A].
+  unfold a64_ldp_encode_row. a64_split.
+Qed.
+
+(* an ACCEPTED pair: 4 bytes, both data ids below 31 or zr, ONE register type, a Gp64 base with a 5-bit id, no index, and an
+   offset that is a multiple of the access size inside the scaled simm7 range *)
+Theorem a64_ldp_accepted_encodable : forall inst_id m n d,
+  a64_ldp inst_id m = MOk n d ->
+  n = 4 /\ d = 0 /\ p_rtype0 m = p_rtype1 m /\ (p_rid0 m < 31 \/ p_rid0 m = a64c_zr) /\ (p_rid1 m < 31 \/ p_rid1 m = a64c_zr) /\
+  p_btype m = a64c_reg_type_gp64 /\ p_itype m = 0 /\ p_bid m <= 31.
+Proof.
+  intros id m n d H. unfold a64_ldp in H.
+  destruct (a64_ldp_row id) as [r | |]; [| discriminate | discriminate].
+  unfold a64_ldp_encode_row in H.
+  destruct (negb (a64_gp_type_ok (lp_allowed r) (p_rtype0 m)) || negb (p_rtype0 m =? p_rtype1 m)) eqn:T; [discriminate |].
+  destruct (negb (a64_check_gp_id (p_rid0 m) a64c_zr) || negb (a64_check_gp_id (p_rid1 m) a64c_zr)) eqn:G; [discriminate |].
+  destruct (negb (p_btype m =? a64c_reg_type_gp64) || negb (p_itype m =? 0)) eqn:B; [discriminate |].
+  repeat match type of H with (if ?c then _ else _) = _ => destruct c eqn:?; try discriminate H end.
+  inversion H.
+  apply orb_false_elim in T. destruct T as [_ T]. apply negb_false_iff, Z.eqb_eq in T.
+  apply orb_false_elim in G. destruct G as [G0 G1]. apply negb_false_iff in G0. apply negb_false_iff in G1.
+  apply orb_false_elim in B. destruct B as [B0 B1]. apply negb_false_iff, Z.eqb_eq in B0. apply negb_false_iff, Z.eqb_eq in B1.
+  assert (GID : forall i, a64_check_gp_id i a64c_zr = true -> i < 31 \/ i = a64c_zr).
+  { intros i C. unfold a64_check_gp_id in C. apply orb_true_iff in C. destruct C as [C | C]; [left; apply Z.ltb_lt; exact C | right; apply Z.eqb_eq; exact C]. }
+  repeat split; auto.
+  match goal with E : (p_bid m <=? 31) = true |- _ => apply Z.leb_le in E; exact E end.
+Qed.
+
 (* ---------------------------------------------------------------- x86 shift / rotate by immediate *)
 Lemma x86_shift_rows_in_range :
   forallb (fun id => forallb (fun k => match x86_shift_row_at id k with ShStuck => false | _ => true end) (upto 15))
@@ -422,7 +486,7 @@ Proof.
              OMem (Z.to_N (m_size (v_mem v))) (Z.to_N (m_btype (v_mem v))) (Z.to_N (m_bid (v_mem v))) (Z.to_N (m_itype (v_mem v)))
                   (Z.to_N (m_iid (v_mem v))) (if m_btype (v_mem v) =? 0 then sext 64 (m_off (v_mem v)) else sext 32 (m_off (v_mem v)))
                   (Z.to_N (m_seg (v_mem v))) 0%N false] = E_Ok).
-  { apply N2Z.inj. exact H. }
+  { apply validate_head_ok. apply N2Z.inj. exact H. }
   apply validate_ok_inv in V. destruct V as [_ [iflags [avx [sidx [scnt [st [rest [_ [XL _]]]]]]]]].
   cbn [xlat_all] in XL.
   destruct (xlat_operand x86_vtables x64 false avx (OReg _ _)) as [e0 | x0 c0]; [discriminate XL |].
@@ -448,4 +512,537 @@ Proof.
   destruct (validate_vgather2 x64 inst_id etype kid v =? 0) eqn:V; [| discriminate].
   apply vsib2_encode_never_stuck; try assumption.
   apply Z.eqb_eq in V. eapply validated2_index_allowed; [lia | exact V].
+Qed.
+
+(* ---------------------------------------------------------------- non-vacuity: every verdict class of the computed-verdict
+   families is inhabited (instruction ids come from the dumped enum, so the statements survive a renumbering) *)
+Example a64_ldst_verdicts :
+  a64_ldst a64c_id_ldr (mkA64Mem 6 1 6 2 0 0 0 0 0 8) = MOk 4 0 /\                      (* ldr x1, [x2, #8] *)
+  a64_ldst a64c_id_ldr (mkA64Mem 6 1 6 2 0 0 0 0 0 (-8)) = MOk 4 0 /\                   (* ldr x1, [x2, #-8]: the ldur fallback *)
+  a64_ldst a64c_id_ldr (mkA64Mem 6 1 6 2 0 0 0 0 0 4097) = MErr kInvalidDisplacement /\ (* neither scaled uimm12 nor simm9 *)
+  a64_ldst a64c_id_ldr (mkA64Mem 6 40 6 2 0 0 0 0 0 8) = MErr kInvalidPhysId /\         (* x40 names no register *)
+  a64_ldst a64c_id_ldr (mkA64Mem 6 1 6 2 6 3 0 2 0 0) = MErr kInvalidAddressScale /\    (* ldr x1, [x2, x3, lsl #2] *)
+  a64_ldst a64c_id_ldr (mkA64Mem 6 1 6 2 6 3 0 3 0 0) = MOk 4 0.                        (* ldr x1, [x2, x3, lsl #3] *)
+Proof. vm_compute. repeat split; reflexivity. Qed.
+
+Example a64_ldp_verdicts :
+  a64_ldp a64c_id_ldp (mkA64Pair 6 1 6 2 6 3 0 0 16) = MOk 4 0 /\                       (* ldp x1, x2, [x3, #16] *)
+  a64_ldp a64c_id_ldp (mkA64Pair 6 1 6 2 6 3 0 0 4) = MErr kInvalidDisplacement /\      (* offset not a multiple of 8 *)
+  a64_ldp a64c_id_ldp (mkA64Pair 6 1 5 2 6 3 0 0 16) = MErr kInvalidInstruction /\      (* ldp x1, w2, .. *)
+  a64_ldp a64c_id_ldp (mkA64Pair 6 1 6 2 6 40 0 0 16) = MErr kInvalidAddress.           (* base x40 *)
+Proof. vm_compute. repeat split; reflexivity. Qed.
+
+Example shift_verdicts :
+  x86_shift_imm true false x86c_id_shl (mkShift 5 0 4 1) = MOk 2 0 /\                   (* shl eax, 1: D1 E0 *)
+  x86_shift_imm true true x86c_id_shl (mkShift 5 0 4 1) = MOk 3 0 /\                    (* long form: C1 E0 01 *)
+  x86_shift_imm true false x86c_id_shl (mkShift 6 9 8 5) = MOk 4 0 /\                   (* shl r9, 5: REX.WB C1 E1 05 *)
+  x86_shift_imm false false x86c_id_shl (mkShift 6 1 8 5) = MErr 58 /\                  (* a 64-bit register in 32-bit mode *)
+  x86_shift_imm true false x86c_id_shl (mkShift 11 31 16 5) = MErr kInvalidPhysId.      (* shl xmm31, 5: the check of /repo 4824306 *)
+Proof. vm_compute. repeat split; reflexivity. Qed.
+
+Example pushpop_verdicts :
+  x86_pushpop_sreg true false x86c_id_push 5 = MOk 2 0 /\                               (* push fs: 0F A0 *)
+  x86_pushpop_sreg true true x86c_id_pop 2 = MErr kInvalidInstruction /\                (* pop cs *)
+  x86_pushpop_sreg true false x86c_id_push 7 = MErr kInvalidPhysId.                     (* segment id 7 names no register *)
+Proof. vm_compute. repeat split; reflexivity. Qed.
+
+Example vsib2_verdicts :
+  (* vgatherdps zmm17 {k1}, [rbx + zmm18*4 + 256]: EVEX, compressed disp8 (256 / 4) *)
+  x86_vgather2 true x86c_vgatherdps_id 16 1 (mkVsib 13 17 0 64 (mkMem 0 6 3 13 18 2 0 0 0 256)) = MOk 8 0 /\
+  (* ... + 258: not a multiple of the element size, disp32 *)
+  x86_vgather2 true x86c_vgatherdps_id 16 1 (mkVsib 13 17 0 64 (mkMem 0 6 3 13 18 2 0 0 0 258)) = MOk 11 0 /\
+  (* vgatherdps xmm1 {k1}, [rbx + xmm2]: EVEX because of the mask *)
+  x86_vgather2 true x86c_vgatherdps_id 16 1 (mkVsib 11 1 0 16 (mkMem 0 6 3 11 2 0 0 0 0 0)) = MOk 7 0 /\
+  (* mask register k9 does not exist *)
+  x86_vgather2 true x86c_vgatherdps_id 16 9 (mkVsib 11 1 0 16 (mkMem 0 6 3 11 2 0 0 0 0 0)) = MErr 39 /\
+  (* the three-operand VEX form refuses xmm16 and accepts xmm1 *)
+  x86_vgather true x86c_vgatherdps_id (mkVsib 11 16 2 16 (mkMem 0 6 3 11 2 0 0 0 0 0)) = MErr kInvalidPhysId /\
+  x86_vgather true x86c_vgatherdps_id (mkVsib 11 1 2 16 (mkMem 0 6 3 11 3 0 0 0 0 0)) = MOk 6 0.
+Proof. vm_compute. repeat split; reflexivity. Qed.
+
+(* ---------------------------------------------------------------- end to end: a verdict "refused" of any computed-verdict
+   family, fed to the emit transaction, is a failed call that reports exactly that error once, leaves every persistent
+   component untouched and clears the one-shot state - for every flavour, architecture, handler kind and state *)
+Theorem refused_instruction_end_to_end : forall fl a h s e s' o,
+  e <> 0 -> step fl a h s (CInst (EncErr e)) = (s', o) ->
+  o = report h e /\ failed o = true /\ persistent s' = persistent s /\ st_one s' = one_clear.
+Proof.
+  intros fl a h s e s' o NZ H.
+  assert (O : o = report h e /\ s' = clear_one s).
+  { cbn [step] in H. destruct fl; cbn [emit_assembler emit_builder] in H; unfold fail_inst in H; inversion H; auto. }
+  destruct O as [Oo Os]. subst o s'. repeat split; try reflexivity.
+  unfold failed. destruct h; cbn; try reflexivity; apply orb_true_iff; left; apply negb_true_iff, Z.eqb_neq; exact NZ.
+Qed.
+
+(* the error codes of the computed-verdict families are never 0 (a refusal cannot be mistaken for success) *)
+Lemma validate_gate_nonzero : forall e (enc : mres) x, (if e =? 0 then enc else MErr e) = MErr x -> (forall y, enc = MErr y -> y <> 0) -> x <> 0.
+Proof. intros e enc x H K. destruct (e =? 0) eqn:E; [apply K; exact H | inversion H; subst; apply Z.eqb_neq; exact E]. Qed.
+
+Theorem a64_ldst_cmd_wf : forall inst_id m c, a64_ldst_cmd inst_id m = Some c -> wf_cmd c.
+Proof.
+  intros id m c H. unfold a64_ldst_cmd in H. destruct (a64_ldst id m) as [n d | e | |] eqn:R; inversion H; subst; cbn; [exact I |].
+  unfold a64_ldst in R. destruct (a64_ldst_row id) as [r | |]; try discriminate R.
+  unfold a64_ldst_encode_row, a64_ldur_encode, a64_emit_mem_base_index, a64_emit_mem_base, bind_l in R.
+  repeat match type of R with
+  | (match ?o with Some _ => _ | None => _ end) = _ => destruct o; [| discriminate R]
+  | (if ?c then _ else _) = _ => destruct c
+  end; try discriminate R; inversion R; subst; vm_compute; discriminate.
+Qed.
+
+Theorem a64_ldp_cmd_wf : forall inst_id m c, a64_ldp_cmd inst_id m = Some c -> wf_cmd c.
+Proof.
+  intros id m c H. unfold a64_ldp_cmd in H. destruct (a64_ldp id m) as [n d | e | |] eqn:R; inversion H; subst; cbn; [exact I |].
+  unfold a64_ldp in R. destruct (a64_ldp_row id) as [r | |]; try discriminate R.
+  unfold a64_ldp_encode_row in R.
+  repeat match type of R with
+  | (if ?c then _ else _) = _ => destruct c
+  end; try discriminate R; inversion R; subst; vm_compute; discriminate.
+Qed.
+
+Theorem shift_cmd_wf : forall a s inst_id f c, shift_cmd a s inst_id f = Some c -> wf_cmd c.
+Proof.
+  intros a s id f c H. unfold shift_cmd in H.
+  destruct (x86_shift_imm _ _ id f) as [n d | e | |] eqn:R; inversion H; subst; cbn; [exact I |].
+  unfold x86_shift_imm in R. eapply validate_gate_nonzero; [exact R |].
+  intros y E. unfold x86_shift_imm_encode in E.
+  destruct (x86_shift_row_at _ _); try discriminate E.
+  destruct (x86c_byte_invalid_rex <? _); [inversion E; vm_compute; discriminate | discriminate E].
+Qed.
+
+Theorem pushpop_cmd_wf : forall a is_pop inst_id id c, pushpop_cmd a is_pop inst_id id = Some c -> wf_cmd c.
+Proof.
+  intros a is_pop inst_id id c H. unfold pushpop_cmd in H.
+  destruct (x86_pushpop_sreg _ is_pop inst_id id) as [n d | e | |] eqn:R; inversion H; subst; cbn; [exact I |].
+  unfold x86_pushpop_sreg in R. eapply validate_gate_nonzero; [exact R |].
+  intros y E. unfold x86_pushpop_sreg_encode, bind_l in E.
+  repeat match type of E with
+  | (match ?o with Some _ => _ | None => _ end) = _ => destruct o; [| discriminate E]
+  | (if ?c then _ else _) = _ => destruct c
+  end; try discriminate E; inversion E; vm_compute; discriminate.
+Qed.
+
+Theorem vsib2_cmd_wf : forall a s inst_id v c, vsib2_cmd a s inst_id v = Some c -> wf_cmd c.
+Proof.
+  intros a s inst_id v c H. unfold vsib2_cmd in H.
+  destruct (x86_vgather2 _ inst_id _ _ v) as [n d | e | |] eqn:R; inversion H; subst; cbn; [exact I |].
+  unfold x86_vgather2 in R. destruct (negb (inst_id =? x86c_vgatherdps_id)); [discriminate R |].
+  eapply validate_gate_nonzero; [exact R |].
+  intros y E. unfold x86_vgather2_encode, bind_l in E. cbv zeta in E.
+  repeat match type of E with
+  | (match ?o with Some _ => _ | None => _ end) = _ => destruct o; [| discriminate E]
+  | (if ?c then _ else _) = _ => destruct c
+  end; try discriminate E; inversion E; vm_compute; discriminate.
+Qed.
+
+(* ---------------------------------------------------------------- mov r, [mem] / mov [mem], r / moffs *)
+Theorem mov_encode_never_stuck : forall x64 absloc cur f,
+  0 <= m_btype (mv_mem f) <= x86c_mem_base_type_max -> 0 <= m_itype (mv_mem f) <= x86c_mem_index_type_max ->
+  0 <= m_seg (mv_mem f) <= x86c_mem_segment_max ->
+  x86_mov_rm_encode x64 absloc cur f <> MStuck.
+Proof.
+  intros x64 absloc cur f Hb Hi Hs. unfold x86_mov_rm_encode.
+  destruct (mv_rtype f =? kRegTypeSegment); [discriminate |].
+  match goal with |- (if ?c then _ else _) <> _ => destruct c end.
+  - destruct (segment_lookup _ Hs) as [sp E]. rewrite E. cbn [bind_l]. destruct (128 <? _); discriminate.
+  - apply modrm_encode_never_stuck; cbn [m_btype m_itype m_seg]; assumption.
+Qed.
+
+Lemma x86_arith_rows_in_range :
+  forallb (fun id => forallb (fun k => match x86_legacy_row_at x86c_encoding_x86_arith id k with ShStuck => false | _ => true end) (upto 15))
+          (upto (x86c_inst_id_count - 1)) = true.
+Proof. vm_compute. reflexivity. Qed.
+
+Theorem arith_rm_encode_never_stuck : forall x64 absloc cur inst_id f,
+  0 <= inst_id ->
+  0 <= m_btype (mv_mem f) <= x86c_mem_base_type_max -> 0 <= m_itype (mv_mem f) <= x86c_mem_index_type_max ->
+  0 <= m_seg (mv_mem f) <= x86c_mem_segment_max ->
+  x86_arith_rm_encode x64 absloc cur inst_id f <> MStuck.
+Proof.
+  intros x64 absloc cur id f H0 Hb Hi Hs. unfold x86_arith_rm_encode.
+  assert (R : 0 <= x86_norm_id id <= x86c_inst_id_count - 1).
+  { unfold x86_norm_id. destruct (x86c_inst_id_count <=? id) eqn:E; [vm_compute; split; discriminate |]. apply Z.leb_gt in E. lia. }
+  pose proof x86_arith_rows_in_range as A. rewrite forallb_forall in A. specialize (A _ (in_upto _ _ R)).
+  rewrite forallb_forall in A. specialize (A _ (in_upto _ _ (land15_range (mv_rsize f)))).
+  destruct (x86_legacy_row_at x86c_encoding_x86_arith (x86_norm_id id) (Z.land (mv_rsize f) 15)); [| discriminate | discriminate A].
+  destruct (negb (mm_size =? 0)); [discriminate |].
+  apply modrm_encode_never_stuck; cbn [m_btype m_itype m_seg]; assumption.
+Qed.
+
+Theorem mov_never_stuck : forall x64 absloc cur inst_id f,
+  0 <= inst_id ->
+  0 <= m_btype (mv_mem f) <= x86c_mem_base_type_max -> 0 <= m_itype (mv_mem f) <= x86c_mem_index_type_max ->
+  0 <= m_seg (mv_mem f) <= x86c_mem_segment_max ->
+  x86_mov_rm x64 absloc cur inst_id f <> MStuck.
+Proof.
+  intros. unfold x86_mov_rm. destruct (inst_id =? x86c_id_mov).
+  - destruct (validate_mov_rm x64 inst_id f =? 0); [apply mov_encode_never_stuck; assumption | discriminate].
+  - destruct (validate_mov_rm x64 inst_id f =? 0); [apply arith_rm_encode_never_stuck; assumption | discriminate].
+Qed.
+
+Theorem mov_cmd_wf : forall a hb s inst_id f c, mov_cmd a hb s inst_id f = Some c -> wf_cmd c.
+Proof.
+  intros a hb s inst_id f c H. unfold mov_cmd in H.
+  destruct (x86_mov_rm _ _ _ inst_id f) as [n d | e | |] eqn:R; inversion H; subst; cbn; [exact I |].
+  unfold x86_mov_rm in R.
+  assert (MODRM : forall x64 absloc cur npp rexop m y, x86_modrm_mem_encode x64 absloc cur npp rexop m = MErr y -> y <> 0).
+  { intros x64 absloc cur npp rexop m y E. unfold x86_modrm_mem_encode, bind_l in E.
+    repeat match type of E with
+    | (match ?o with Some _ => _ | None => _ end) = _ => destruct o; [| discriminate E]
+    | (if ?c then _ else _) = _ => destruct c
+    | (let _ := _ in _) = _ => cbv zeta in E
+    end; try discriminate E; inversion E; subst; vm_compute; discriminate. }
+  destruct (inst_id =? x86c_id_mov); [|
+    eapply validate_gate_nonzero; [exact R |]; intros y E; unfold x86_arith_rm_encode in E;
+    destruct (x86_legacy_row_at _ _ _); try discriminate E; destruct (negb (_ =? 0)); [discriminate E | eapply MODRM; exact E] ].
+  eapply validate_gate_nonzero; [exact R |].
+  intros y E. unfold x86_mov_rm_encode in E.
+  destruct (mv_rtype f =? kRegTypeSegment); [discriminate E |].
+  match type of E with (if ?c then _ else _) = _ => destruct c end.
+  - unfold bind_l in E. destruct (lookup x86_segment_prefix_table _); [| discriminate E].
+    destruct (128 <? _); [inversion E; vm_compute; discriminate | discriminate E].
+  - eapply MODRM; exact E.
+Qed.
+
+(* the moffs form is taken exactly for the accumulator with a base-less address; its length does not depend on the address *)
+Theorem movabs_length : forall x64 absloc cur f n d,
+  m_dst (mv_mem f) = 0 -> m_btype (mv_mem f) = 0 -> m_itype (mv_mem f) = 0 ->
+  mv_rtype f <> kRegTypeSegment -> mv_rtype f <> x86c_reg_type_gp8hi ->
+  x86_use_movabs x64 absloc cur (mv_rsize f) (mv_mem f) = true ->
+  x86_mov_rm_encode x64 absloc cur f = MOk n d ->
+  d = 0 /\ (if x64 then 9 else 5) <= n <= (if x64 then 12 else 8).
+Proof.
+  intros x64 absloc cur f n d Hd Hb Hi Hs Hh Hu H. unfold x86_mov_rm_encode in H.
+  apply Z.eqb_neq in Hs. apply Z.eqb_neq in Hh. rewrite Hs, Hh, Hd, Hb, Hi, Hu in H. cbn [negb andb Z.eqb] in H.
+  unfold bind_l in H. destruct (lookup x86_segment_prefix_table _); [| discriminate H].
+  destruct (128 <? _); [discriminate H |]. inversion H. split; [reflexivity |].
+  destruct x64; repeat match goal with |- context [if ?c then _ else _] => destruct c end; lia.
+Qed.
+
+Example mov_verdicts :
+  x86_mov_rm true false 0 x86c_id_mov (mkMov 6 8 false (mkMem 0 0 0 0 0 0 0 0 8 78187493530)) = MOk 10 0 /\   (* mov rax, [0x123456789A]: REX.W A1 imm64 *)
+  x86_mov_rm true false 0 x86c_id_mov (mkMov 5 4 false (mkMem 0 0 0 0 0 0 0 0 4 4096)) = MOk 6 1 /\           (* mov eax, [0x1000]: RIP-relative + relocation *)
+  x86_mov_rm false false 0 x86c_id_mov (mkMov 5 4 false (mkMem 0 0 0 0 0 0 0 0 4 4096)) = MOk 5 0 /\          (* 32-bit mode: A1 imm32 *)
+  x86_mov_rm false false 0 x86c_id_mov (mkMov 4 2 true (mkMem 0 0 0 0 0 0 5 0 2 4096)) = MOk 7 0 /\           (* mov fs:[0x1000], ax: 64 66 A3 imm32 *)
+  x86_mov_rm true false 0 x86c_id_mov (mkMov 3 1 false (mkMem 0 6 9 0 0 0 0 0 1 0)) = MErr 57 /\              (* mov ah, [r9] *)
+  x86_mov_rm true false 0 x86c_id_mov (mkMov 2 1 false (mkMem 6 6 3 0 0 0 0 0 1 0)) = MOk 3 0 /\              (* mov sil, [rbx]: REX 8A 33 *)
+  x86_mov_rm true false 0 x86c_id_mov (mkMov 6 8 false (mkMem 1 6 3 0 0 0 7 0 8 0)) = MErr kInvalidSegment.   (* segment field 7 *)
+Proof. vm_compute. repeat split; reflexivity. Qed.
+
+(* ---------------------------------------------------------------- end to end, the success side at full strength: an ACCEPTED
+   instruction of the computed-verdict families (n bytes, d relocations, no fixup) changes exactly the size of the current
+   section (+ n) and the relocation count (+ d); labels, fixups, address table, nodes (Assembler), the current section and all
+   other sections stay as they are; the one-shot state is consumed and nothing is reported *)
+Theorem accepted_instruction_end_to_end : forall a h s n d s' o,
+  step FAssembler a h s (CInst (EncOk n None false d 0 0)) = (s', o) ->
+  o = ok_out /\ st_sizes s' = updZ (st_sizes s) (st_cur s) (cur_size s + n) /\ st_relocs s' = st_relocs s + d /\
+  st_cur s' = st_cur s /\ st_labels s' = st_labels s /\ st_fixups s' = st_fixups s /\ st_addrs s' = st_addrs s /\
+  st_nodes s' = st_nodes s /\ st_one s' = one_clear.
+Proof.
+  intros a h s n d s' o H. cbn [step emit_assembler] in H. inversion H. subst.
+  unfold commit_inst, add_bytes, clear_one, set_one, add_addrs, add_relocs, cur_size. cbn.
+  repeat split; try reflexivity; try lia.
+Qed.
+
+(* ---------------------------------------------------------------- a64 SIMD / FP load / store *)
+Lemma a64_simd_rows_in_range :
+  forallb (fun id => match a64_simd_row_at id with SStuck => false | _ => true end) (upto (a64c_inst_id_count - 1)) = true.
+Proof. vm_compute. reflexivity. Qed.
+
+Theorem a64_simd_ldst_never_stuck : forall inst_id v,
+  0 <= inst_id -> 0 <= a_shiftop (av_mem v) <= a64c_mem_shift_op_max -> a64_simd_ldst inst_id v <> MStuck.
+Proof.
+  intros id v H0 Hs. unfold a64_simd_ldst, a64_simd_row.
+  assert (R : 0 <= a64_norm_id id <= a64c_inst_id_count - 1).
+  { unfold a64_norm_id. destruct (a64c_inst_id_count <=? id) eqn:E; [vm_compute; split; discriminate |]. apply Z.leb_gt in E. lia. }
+  pose proof a64_simd_rows_in_range as A. rewrite forallb_forall in A. specialize (A _ (in_upto _ _ R)).
+  destruct (a64_simd_row_at (a64_norm_id id)) as [r | |]; [| discriminate | discriminate A].
+  unfold a64_simd_encode_row.
+  pose proof a64_shift_op_map_in_range as B. rewrite forallb_forall in B. specialize (B _ (in_upto _ _ Hs)).
+  apply hit_some in B. destruct B as [opt Eo]. rewrite Eo. cbn [bind_l].
+  unfold a64_emit_mem_base_index, a64_emit_mem_base. a64_split.
+Qed.
+
+Theorem a64_simd_ldst_accepted_encodable : forall inst_id v n d,
+  a64_simd_ldst inst_id v = MOk n d ->
+  n = 4 /\ d = 0 /\ a_rid (av_mem v) <= 31 /\ av_ei v = false /\ av_et v = 0 /\
+  a_btype (av_mem v) = a64c_reg_type_gp64 /\ a_bid (av_mem v) <= 31 /\
+  (a_itype (av_mem v) <> 0 -> a_iid (av_mem v) <= 30 \/ a_iid (av_mem v) = a64c_id_zr).
+Proof.
+  intros id v n d H. unfold a64_simd_ldst in H.
+  destruct (a64_simd_row id) as [r | |]; [| discriminate | discriminate].
+  unfold a64_simd_encode_row in H. set (m := av_mem v) in *.
+  destruct ((4 <? diff32 (a_rtype m) a64c_reg_type_vec8) || av_ei v || negb (av_et v =? 0)) eqn:T; [discriminate |].
+  apply orb_false_elim in T. destruct T as [T ET]. apply orb_false_elim in T. destruct T as [_ EI].
+  apply negb_false_iff, Z.eqb_eq in ET.
+  destruct (31 <? a_rid m) eqn:G; [discriminate |]. apply Z.ltb_ge in G.
+  destruct (a64_check_mem_base_index_rel m); cbn [negb] in H; [| discriminate].
+  destruct (a64c_reg_type_label_tag <? a_btype m); [| destruct (sl_literal r =? 0); [discriminate | destruct (_ <? 2); discriminate]].
+  assert (BASE : forall n d, a64_emit_mem_base m = MOk n d -> n = 4 /\ d = 0 /\ a_btype m = a64c_reg_type_gp64 /\ a_bid m <= 31).
+  { intros n0 d0 E. unfold a64_emit_mem_base in E. destruct (a64_check_mem_base m) eqn:C; [| discriminate].
+    inversion E. unfold a64_check_mem_base in C. apply andb_true_iff in C. destruct C as [C1 C2].
+    apply Z.eqb_eq in C1. apply Z.leb_le in C2. auto. }
+  destruct (a_itype m =? 0) eqn:IT; cbn [negb] in H.
+  - apply Z.eqb_eq in IT.
+    assert (X : a64_emit_mem_base m = MOk n d).
+    { repeat match type of H with (if ?c then _ else _) = _ => destruct c; try discriminate H end; exact H. }
+    destruct (BASE _ _ X) as [? [? [? ?]]]. repeat split; try assumption. intros NZ. contradiction.
+  - destruct (lookup a64_shift_op_to_ld_st_opt_map (a_shiftop m)) as [opt |]; cbn [bind_l] in H; [| discriminate].
+    repeat match type of H with (if ?c then _ else _) = _ => destruct c; try discriminate H end.
+    unfold a64_emit_mem_base_index in H.
+    destruct (a64_check_mem_base m) eqn:C; cbn [negb] in H; [| discriminate].
+    destruct ((30 <? a_iid m) && negb (a_iid m =? a64c_id_zr)) eqn:I; [discriminate |].
+    inversion H. unfold a64_check_mem_base in C. apply andb_true_iff in C. destruct C as [C1 C2].
+    apply Z.eqb_eq in C1. apply Z.leb_le in C2.
+    repeat split; try assumption. intros _.
+    apply andb_false_iff in I. destruct I as [I | I].
+    + left. apply Z.ltb_ge in I. exact I.
+    + right. apply negb_false_iff in I. apply Z.eqb_eq in I. exact I.
+Qed.
+
+Theorem a64_simd_ldst_cmd_wf : forall inst_id v c, a64_simd_ldst_cmd inst_id v = Some c -> wf_cmd c.
+Proof.
+  intros id v c H. unfold a64_simd_ldst_cmd in H. destruct (a64_simd_ldst id v) as [n d | e | |] eqn:R; inversion H; subst; cbn; [exact I |].
+  unfold a64_simd_ldst in R. destruct (a64_simd_row id) as [r | |]; try discriminate R.
+  unfold a64_simd_encode_row, a64_emit_mem_base_index, a64_emit_mem_base, bind_l in R.
+  repeat match type of R with
+  | (match ?o with Some _ => _ | None => _ end) = _ => destruct o; [| discriminate R]
+  | (if ?c then _ else _) = _ => destruct c
+  end; try discriminate R; inversion R; subst; vm_compute; discriminate.
+Qed.
+
+Example a64_simd_ldst_verdicts :
+  a64_simd_ldst a64c_id_ldr_v (mkA64VMem 0 false (mkA64Mem a64c_reg_type_vec128 1 6 2 0 0 0 0 0 32)) = MOk 4 0 /\      (* ldr q1, [x2, #32] *)
+  a64_simd_ldst a64c_id_ldr_v (mkA64VMem 0 false (mkA64Mem a64c_reg_type_vec128 1 6 2 0 0 0 0 0 8)) = MOk 4 0 /\       (* ldr q1, [x2, #8]: ldur *)
+  a64_simd_ldst a64c_id_ldr_v (mkA64VMem 0 false (mkA64Mem a64c_reg_type_vec128 1 6 2 0 0 0 0 0 264)) = MErr kInvalidDisplacement /\
+  a64_simd_ldst a64c_id_ldr_v (mkA64VMem 0 false (mkA64Mem a64c_reg_type_vec128 40 6 2 0 0 0 0 0 32)) = MErr kInvalidPhysId /\
+  a64_simd_ldst a64c_id_ldr_v (mkA64VMem 2 false (mkA64Mem a64c_reg_type_vec128 1 6 2 0 0 0 0 0 32)) = MErr kInvalidRegType /\   (* v1.4s as data register *)
+  a64_simd_ldst a64c_id_str_v (mkA64VMem 0 false (mkA64Mem a64c_reg_type_vec128 1 6 2 6 3 0 4 0 0)) = MOk 4 0 /\        (* str q1, [x2, x3, lsl #4] *)
+  a64_simd_ldst a64c_id_str_v (mkA64VMem 0 false (mkA64Mem a64c_reg_type_vec128 1 6 2 6 3 0 3 0 0)) = MErr kInvalidAddressScale.
+Proof. vm_compute. repeat split; reflexivity. Qed.
+
+(* ---------------------------------------------------------------- VEX / EVEX register form (vaddps v, v, v {k}) *)
+Lemma vaddps_main_opcode :
+  match lookup x86_inst_main_idx x86c_vaddps_id with
+  | Some mi => match lookup x86_main_opcode_table mi with Some _ => true | None => false end
+  | None => false
+  end = true.
+Proof. vm_compute. reflexivity. Qed.
+
+Lemma land15_vex_prefix : forall x, exists v, lookup x86_vex_prefix_table (Z.land x 15) = Some v.
+Proof.
+  intros x. apply lookup_in_len. replace (lenZ x86_vex_prefix_table) with 16 by (vm_compute; reflexivity).
+  pose proof (land15_range x). lia.
+Qed.
+
+(* every table read of the register path (instruction row, main_opcode_table, ll_by_size_div_16_table, vex_prefix_table) is in
+   range for every register id, every mask id and every size field *)
+Theorem vrrr_encode_never_stuck : forall kid f, 0 <= vr_size f <= x86c_size_max -> x86_vrrr_encode kid f <> MStuck.
+Proof.
+  intros kid f Hz. unfold x86_vrrr_encode.
+  match goal with |- (if ?c then _ else _) <> _ => destruct c; [discriminate |] end.
+  pose proof vaddps_main_opcode as A.
+  destruct (lookup x86_inst_main_idx x86c_vaddps_id) as [mi |]; [| discriminate A]. cbn [bind_l].
+  destruct (lookup x86_main_opcode_table mi) as [opc0 |]; [| discriminate A]. cbn [bind_l]. clear A.
+  destruct (ll_size_lookup _ Hz) as [ls E]. rewrite E. cbn [bind_l]. cbv zeta.
+  match goal with |- context [lookup x86_vex_prefix_table (Z.land ?x 15)] => destruct (land15_vex_prefix x) as [v Ev]; rewrite Ev end.
+  cbn [bind_l].
+  repeat match goal with
+  | |- (if ?c then _ else _) <> MStuck => destruct c
+  | |- MOk _ _ <> MStuck => discriminate
+  | |- MErr _ <> MStuck => discriminate
+  end.
+Qed.
+
+Theorem vrrr_never_stuck : forall x64 inst_id etype kid f, 0 <= vr_size f <= x86c_size_max -> x86_vrrr x64 inst_id etype kid f <> MStuck.
+Proof.
+  intros. unfold x86_vrrr. destruct (negb (inst_id =? x86c_vaddps_id)); [discriminate |].
+  destruct (validate_vrrr x64 inst_id etype kid f =? 0); [apply vrrr_encode_never_stuck; assumption | discriminate].
+Qed.
+
+(* an accepted register form is 4 (VEX2), 5 (VEX3) or 6 (EVEX) bytes and touches nothing but the section *)
+Theorem vrrr_accepted_length : forall x64 inst_id etype kid f n d, x86_vrrr x64 inst_id etype kid f = MOk n d -> d = 0 /\ (n = 4 \/ n = 5 \/ n = 6).
+Proof.
+  intros x64 inst_id etype kid f n d H. unfold x86_vrrr in H.
+  destruct (negb (inst_id =? x86c_vaddps_id)); [discriminate H |].
+  destruct (validate_vrrr x64 inst_id etype kid f =? 0); [| discriminate H].
+  unfold x86_vrrr_encode, bind_l in H. cbv zeta in H.
+  repeat match type of H with
+  | (match ?o with Some _ => _ | None => _ end) = _ => destruct o; [| discriminate H]
+  | (if ?c then _ else _) = _ => destruct c
+  end; try discriminate H; inversion H; auto.
+Qed.
+
+Theorem vrrr_cmd_wf : forall a s inst_id f c, vrrr_cmd a s inst_id f = Some c -> wf_cmd c.
+Proof.
+  intros a s inst_id f c H. unfold vrrr_cmd in H.
+  destruct (x86_vrrr _ inst_id _ _ f) as [n d | e | |] eqn:R; inversion H; subst; cbn; [exact I |].
+  unfold x86_vrrr in R. destruct (negb (inst_id =? x86c_vaddps_id)); [discriminate R |].
+  eapply validate_gate_nonzero; [exact R |].
+  intros y E. unfold x86_vrrr_encode, bind_l in E. cbv zeta in E.
+  repeat match type of E with
+  | (match ?o with Some _ => _ | None => _ end) = _ => destruct o; [| discriminate E]
+  | (if ?c then _ else _) = _ => destruct c
+  end; try discriminate E; inversion E; vm_compute; discriminate.
+Qed.
+
+Example vrrr_verdicts :
+  x86_vrrr true x86c_vaddps_id 0 0 (mkVrrr 11 1 11 2 11 3 16) = MOk 4 0 /\       (* vaddps xmm1, xmm2, xmm3: VEX2 *)
+  x86_vrrr true x86c_vaddps_id 0 0 (mkVrrr 11 1 11 2 11 9 16) = MOk 5 0 /\       (* ... xmm9 as rm: VEX3 *)
+  x86_vrrr true x86c_vaddps_id 0 0 (mkVrrr 11 1 11 2 11 17 16) = MOk 6 0 /\      (* ... xmm17: EVEX *)
+  x86_vrrr true x86c_vaddps_id 16 3 (mkVrrr 12 1 12 2 12 3 32) = MOk 6 0 /\      (* vaddps ymm1 {k3}, ymm2, ymm3: EVEX because of the mask *)
+  x86_vrrr true x86c_vaddps_id 0 0 (mkVrrr 13 1 13 2 13 3 64) = MOk 6 0 /\       (* zmm: EVEX *)
+  x86_vrrr true x86c_vaddps_id 0 0 (mkVrrr 11 1 11 2 11 32 16) = MErr kInvalidPhysId /\
+  x86_vrrr true x86c_vaddps_id 0 0 (mkVrrr 11 1 12 2 11 3 48) = MErr kInvalidInstruction /\   (* mixed widths *)
+  x86_vrrr false x86c_vaddps_id 0 0 (mkVrrr 11 1 11 2 11 9 16) = MErr kInvalidPhysId.         (* xmm9 in 32-bit mode *)
+Proof. vm_compute. repeat split; reflexivity. Qed.
+
+(* ---------------------------------------------------------------- a64 ldr / str immediate form: arithmetic specification *)
+Lemma uimm12_scaled_iff : forall off s, 0 <= s <= 4 -> - 2 ^ 31 <= off < 2 ^ 31 ->
+  ((Z.shiftr (off mod 2 ^ 32) s <? 4096) && ((Z.shiftl (Z.shiftr (off mod 2 ^ 32) s) s) mod 2 ^ 32 =? off mod 2 ^ 32)) = true <->
+  (0 <= off < 4096 * 2 ^ s /\ off mod 2 ^ s = 0).
+Proof.
+  intros off s Hs Ho.
+  rewrite Z.shiftr_div_pow2, Z.shiftl_mul_pow2 by lia.
+  rewrite andb_true_iff, Z.ltb_lt, Z.eqb_eq.
+  assert (S : s = 0 \/ s = 1 \/ s = 2 \/ s = 3 \/ s = 4) by lia.
+  change (2 ^ 31) with 2147483648 in Ho. change (2 ^ 32) with 4294967296.
+  destruct S as [S | [S | [S | [S | S]]]]; subst s; cbn [Z.pow Z.pow_pos Pos.iter Z.mul Pos.mul];
+    Z.div_mod_to_equations; lia.
+Qed.
+
+(* the immediate-offset form of a load / store, characterised arithmetically: with a well-formed data register and a Gp64 base,
+   `[base, #off]` is accepted exactly when off is a multiple of the access size inside the scaled uimm12 range, or lies in the
+   unscaled simm9 range of the ldur/stur fallback; every other offset is refused with kInvalidDisplacement *)
+Theorem a64_ldst_imm_offset_spec : forall r m,
+  a64_gp_type_ok (l_allowed r) (a_rtype m) = true -> a64_check_gp_id (a_rid m) a64c_zr = true ->
+  a64_gp_type_ok (l2_allowed r) (a_rtype m) = true -> a64_check_gp_id (a_rid m) (l2_hi r) = true -> l2_shift r = 0 ->
+  a_btype m = a64c_reg_type_gp64 -> a_bid m <= 31 -> a_itype m = 0 -> a_mode m = 0 ->
+  - 2 ^ 31 <= a_off m < 2 ^ 31 -> 0 <= a64_imm_shift r m <= 4 ->
+  let s := a64_imm_shift r m in
+  let fits := (0 <= a_off m < 4096 * 2 ^ s /\ (a_off m) mod 2 ^ s = 0) \/ (-256 <= a_off m <= 255) in
+  (fits -> a64_ldst_encode_row r m = MOk 4 0) /\ (~ fits -> a64_ldst_encode_row r m = MErr kInvalidDisplacement).
+Proof.
+  intros r m T1 G1 T2 G2 S2 Hb Hbid Hi Hm Ho Hs s fits.
+  assert (BASE : a64_emit_mem_base m = MOk 4 0).
+  { unfold a64_emit_mem_base, a64_check_mem_base. rewrite Hb, Z.eqb_refl. apply Z.leb_le in Hbid. rewrite Hbid. reflexivity. }
+  assert (REL : a64_check_mem_base_index_rel m = true).
+  { unfold a64_check_mem_base_index_rel. rewrite Hb, Hi. reflexivity. }
+  assert (I32 : is_int_n 32 (a_off m) = true).
+  { unfold is_int_n. apply andb_true_iff. split; [apply Z.leb_le | apply Z.ltb_lt]; cbn; lia. }
+  assert (E : a64_ldst_encode_row r m =
+              if (Z.shiftr ((a_off m) mod 2 ^ 32) s <? 4096) && ((Z.shiftl (Z.shiftr ((a_off m) mod 2 ^ 32) s) s) mod 2 ^ 32 =? (a_off m) mod 2 ^ 32)
+              then MOk 4 0 else if is_int_n 9 (a_off m) then MOk 4 0 else MErr kInvalidDisplacement).
+  { unfold a64_ldst_encode_row. rewrite T1, G1, REL, I32. cbn [negb].
+    rewrite Hb. change (a64c_reg_type_label_tag <? a64c_reg_type_gp64) with true. cbv iota.
+    rewrite Hi, Hm. cbn [Z.eqb negb]. rewrite BASE. fold (a64_imm_shift r m). fold s.
+    destruct (_ && _); [reflexivity |].
+    unfold a64_ldur_encode. rewrite T2, G2, S2, Hm. cbn [negb Z.eqb]. rewrite Z.shiftr_0_r, Z.shiftl_0_r, Z.eqb_refl. cbn [negb].
+    rewrite BASE. destruct (is_int_n 9 (a_off m)); reflexivity. }
+  pose proof (uimm12_scaled_iff (a_off m) s Hs Ho) as U.
+  assert (N : is_int_n 9 (a_off m) = true <-> -256 <= a_off m <= 255).
+  { unfold is_int_n. rewrite andb_true_iff, Z.leb_le, Z.ltb_lt. cbn. lia. }
+  rewrite E. split.
+  - intros [F | F].
+    + apply U in F. rewrite F. reflexivity.
+    + apply N in F. rewrite F. destruct (_ && _); reflexivity.
+  - intros NF. destruct (_ && _) eqn:A; [exfalso; apply NF; left; apply U; reflexivity |].
+    destruct (is_int_n 9 (a_off m)) eqn:B; [exfalso; apply NF; right; apply N; reflexivity | reflexivity].
+Qed.
+
+(* the hypotheses are satisfiable: the rows of `ldr` (X and W data register) and `ldrb` meet them with scale 3, 2 and 0 *)
+Example a64_ldst_imm_offset_spec_applies :
+  match a64_ldst_row a64c_id_ldr, a64_ldst_row a64c_id_ldrb with
+  | RRow r, RRow rb =>
+      (l2_shift r =? 0) && a64_gp_type_ok (l_allowed r) 6 && a64_gp_type_ok (l2_allowed r) 6 && a64_check_gp_id 1 (l2_hi r) &&
+      (a64_imm_shift r (mkA64Mem 6 1 6 2 0 0 0 0 0 0) =? 3) && (a64_imm_shift r (mkA64Mem 5 1 6 2 0 0 0 0 0 0) =? 2) &&
+      (l2_shift rb =? 0) && a64_gp_type_ok (l_allowed rb) 5 && (a64_imm_shift rb (mkA64Mem 5 1 6 2 0 0 0 0 0 0) =? 0)
+  | _, _ => false
+  end = true.
+Proof. vm_compute. reflexivity. Qed.
+
+(* ---------------------------------------------------------------- a64 ldp / stp: arithmetic specification of the offset *)
+Lemma simm7_scaled_iff : forall off s, 0 <= s <= 5 -> - 2 ^ 31 <= off < 2 ^ 31 ->
+  (((Z.shiftl (Z.shiftr off s) s) mod 2 ^ 32 =? off mod 2 ^ 32) && is_int_n 7 (Z.shiftr off s)) = true <->
+  (- 64 * 2 ^ s <= off < 64 * 2 ^ s /\ off mod 2 ^ s = 0).
+Proof.
+  intros off s Hs Ho.
+  rewrite Z.shiftr_div_pow2, Z.shiftl_mul_pow2 by lia.
+  unfold is_int_n. rewrite !andb_true_iff, Z.eqb_eq, Z.leb_le, Z.ltb_lt.
+  assert (S : s = 0 \/ s = 1 \/ s = 2 \/ s = 3 \/ s = 4 \/ s = 5) by lia.
+  change (2 ^ 31) with 2147483648 in Ho. change (2 ^ 32) with 4294967296. change (2 ^ (7 - 1)) with 64.
+  destruct S as [S | [S | [S | [S | [S | S]]]]]; subst s; cbn [Z.pow Z.pow_pos Pos.iter Z.mul Pos.mul];
+    Z.div_mod_to_equations; lia.
+Qed.
+
+(* ldp / stp `[base, #off]` (and the write-back forms where the row has them), for EVERY 32-bit offset: accepted exactly when off
+   is a multiple of the access size inside the scaled simm7 range *)
+Theorem a64_ldp_offset_spec : forall r m,
+  a64_gp_type_ok (lp_allowed r) (p_rtype0 m) = true -> p_rtype0 m = p_rtype1 m ->
+  a64_check_gp_id (p_rid0 m) a64c_zr = true -> a64_check_gp_id (p_rid1 m) a64c_zr = true ->
+  p_btype m = a64c_reg_type_gp64 -> p_bid m <= 31 -> p_itype m = 0 -> (p_mode m = 0 \/ lp_prepost r <> 0) ->
+  - 2 ^ 31 <= p_off m < 2 ^ 31 ->
+  let s := lp_shift r + a64_gp_x (lp_allowed r) (p_rtype0 m) in
+  0 <= s <= 5 ->
+  let fits := - 64 * 2 ^ s <= p_off m < 64 * 2 ^ s /\ (p_off m) mod 2 ^ s = 0 in
+  (fits -> a64_ldp_encode_row r m = MOk 4 0) /\ (~ fits -> a64_ldp_encode_row r m = MErr kInvalidDisplacement).
+Proof.
+  intros r m T EQ G0 G1 Hb Hbid Hi Hm Ho s Hs fits.
+  pose proof (simm7_scaled_iff (p_off m) s Hs Ho) as U.
+  assert (E : a64_ldp_encode_row r m =
+              if ((Z.shiftl (Z.shiftr (p_off m) s) s) mod 2 ^ 32 =? (p_off m) mod 2 ^ 32) && is_int_n 7 (Z.shiftr (p_off m) s)
+              then MOk 4 0 else MErr kInvalidDisplacement).
+  { unfold a64_ldp_encode_row. rewrite T, G0, G1, <- EQ, Z.eqb_refl, Hb, Hi, Z.eqb_refl. cbn [negb orb Z.eqb]. fold s.
+    destruct (_ =? _); cbn [negb andb]; [| reflexivity].
+    destruct (is_int_n 7 _); cbn [negb]; [| reflexivity].
+    assert (W : negb (p_mode m =? 0) && (lp_prepost r =? 0) = false).
+    { destruct Hm as [Hm | Hm]; [rewrite Hm; reflexivity | apply Z.eqb_neq in Hm; rewrite Hm; apply andb_false_r]. }
+    rewrite W. apply Z.leb_le in Hbid. rewrite Hbid. reflexivity. }
+  rewrite E. split.
+  - intros F. apply U in F. rewrite F. reflexivity.
+  - intros NF. destruct (_ && _) eqn:A; [exfalso; apply NF; apply U; reflexivity | reflexivity].
+Qed.
+
+Example a64_ldp_offset_spec_applies :
+  match a64_ldp_row a64c_id_ldp with
+  | PRow r => a64_gp_type_ok (lp_allowed r) 6 && a64_gp_type_ok (lp_allowed r) 5 && negb (lp_prepost r =? 0) &&
+              (lp_shift r + a64_gp_x (lp_allowed r) 6 =? 3) && (lp_shift r + a64_gp_x (lp_allowed r) 5 =? 2)
+  | _ => false
+  end = true.
+Proof. vm_compute. reflexivity. Qed.
+
+(* ---------------------------------------------------------------- x86 moffs decision: arithmetic specification *)
+Lemma sext64_range : forall v, - 2 ^ 63 <= sext 64 v < 2 ^ 63.
+Proof.
+  intros v. unfold sext. change (2 ^ 64) with 18446744073709551616. change (2 ^ (64 - 1)) with 9223372036854775808. change (2 ^ 63) with 9223372036854775808.
+  pose proof (Z.mod_pos_bound v 18446744073709551616 ltac:(lia)).
+  destruct (_ <? _) eqn:E; [apply Z.ltb_lt in E | apply Z.ltb_ge in E]; lia.
+Qed.
+
+(* the moffs decision of a 64-bit Assembler without a base address, for EVERY 64-bit address: the accumulator form with an
+   8-byte address is chosen exactly when neither a sign-extended nor a zero-extended 32-bit displacement reaches the address *)
+Theorem x86_use_movabs_spec : forall cur rs m,
+  m_addr m <> 2 ->
+  let addr := sext 64 (m_off m) in
+  x86_use_movabs true false cur rs m = true <-> (addr < - 2 ^ 31 \/ 2 ^ 32 <= addr).
+Proof.
+  intros cur rs m Ha addr. unfold x86_use_movabs. cbn [negb]. apply Z.eqb_neq in Ha. rewrite Ha. rewrite andb_false_r. fold addr.
+  pose proof (sext64_range (m_off m)) as R. fold addr in R.
+  unfold sext at 1. change (2 ^ 32) with 4294967296 in *. change (2 ^ (32 - 1)) with 2147483648. change (2 ^ 31) with 2147483648.
+  change (2 ^ 63) with 9223372036854775808 in R. change (2 ^ 64) with 18446744073709551616.
+  destruct (addr mod 4294967296 <? 2147483648) eqn:L; [apply Z.ltb_lt in L | apply Z.ltb_ge in L];
+  destruct (addr =? _) eqn:E; [apply Z.eqb_eq in E | apply Z.eqb_neq in E | apply Z.eqb_eq in E | apply Z.eqb_neq in E];
+  rewrite ?Z.leb_le; try (split; [discriminate | ]); Z.div_mod_to_equations; lia.
+Qed.
+
+(* ---------------------------------------------------------------- EVEX compressed disp8: arithmetic specification *)
+Lemma cdisp8_ok_iff : forall rel cd, 0 <= cd <= 6 -> - 2 ^ 31 <= rel < 2 ^ 31 ->
+  cdisp8_ok rel cd = true <-> (-128 * 2 ^ cd <= rel <= 127 * 2 ^ cd /\ rel mod 2 ^ cd = 0).
+Proof.
+  intros rel cd Hc Hr. unfold cdisp8_ok, is_int8, mod32, sext.
+  rewrite Z.shiftr_div_pow2, Z.shiftl_mul_pow2 by lia.
+  rewrite !andb_true_iff, !Z.leb_le, Z.eqb_eq.
+  change (2 ^ 31) with 2147483648 in Hr. change (2 ^ 32) with 4294967296. change (2 ^ (32 - 1)) with 2147483648.
+  assert (S : cd = 0 \/ cd = 1 \/ cd = 2 \/ cd = 3 \/ cd = 4 \/ cd = 5 \/ cd = 6) by lia.
+  destruct S as [S | [S | [S | [S | [S | [S | S]]]]]]; subst cd; cbn [Z.pow Z.pow_pos Pos.iter Z.mul Pos.mul];
+    (destruct (_ <? _) eqn:L; [apply Z.ltb_lt in L | apply Z.ltb_ge in L]); Z.div_mod_to_equations; lia.
 Qed.
